@@ -8,6 +8,8 @@ namespace JsightVerif.Model
 /-- every byte test inside the condition answers the same on `a` and `b` -/
 def condAgn (a b : UInt8) : Cond → Bool
   | .byteEq x => (a.toNat == x) == (b.toNat == x)
+  | .byteLe x => decide (a.toNat ≤ x) == decide (b.toNat ≤ x)
+  | .byteGe x => decide (x ≤ a.toNat) == decide (x ≤ b.toNat)
   | .eqCaseWs => (a == caseWhitespace a) == (b == caseWhitespace b)
   | .eqCaseNl => (a == caseNewLine a) == (b == caseNewLine b)
   | .isWs => isSpaceB a == isSpaceB b
@@ -21,6 +23,8 @@ theorem evalCond_agn {σ} (env : Env) (s : Sc σ) (a b : UInt8) (cnd : Cond) (h 
     evalCond env s a cnd = evalCond env s b cnd := by
   induction cnd with
   | byteEq x => simp only [condAgn, beq_iff_eq] at h; simp [evalCond, h]
+  | byteLe x => simp only [condAgn, beq_iff_eq] at h; simp [evalCond, h]
+  | byteGe x => simp only [condAgn, beq_iff_eq] at h; simp [evalCond, h]
   | eqCaseWs => simp only [condAgn, beq_iff_eq] at h; simp [evalCond, h]
   | eqCaseNl => simp only [condAgn, beq_iff_eq] at h; simp [evalCond, h]
   | isWs => simp only [condAgn, beq_iff_eq] at h; simp [evalCond, h]
